@@ -463,11 +463,18 @@ func ruleC10Close(c *Ctx) {
 		if !ok {
 			return
 		}
-		mc, ok := g.Call.Value.(*ssa.MakeClosure)
-		if !ok {
+		var fn *ssa.Function
+		switch v := g.Call.Value.(type) {
+		case *ssa.MakeClosure:
+			fn = v.Fn.(*ssa.Function)
+		case *ssa.Function:
+			if c.inRuleScope(v) && len(v.Blocks) > 0 {
+				fn = v
+			}
+		}
+		if fn == nil {
 			return
 		}
-		fn := mc.Fn.(*ssa.Function)
 		nFeed++
 		first := firstRealInstr(fn)
 		df, isDefer := first.(*ssa.Defer)
